@@ -76,7 +76,7 @@ def equiv_check(kinds, what):
                 K.emit_tables(prop, "tab-la", dict(CFGS="U_C04", SYMS="Syms_C04", HI=600 if q else "Len(Cfgs)"))]
         n = 150 if q else 3000
         sources = ["tables:" + t for t in tabs] + [f"random:c01:{n}:{seed}", f"random:c04:{n}:{seed}",
-                                                     f"random:c06:{n}:{seed}", "corpus"]
+                                                     f"random:c06:{n}:{seed}", "classpairs", "corpus"]
         out, info = K.harness_dump(prop, "dump", sources)
         cases_path = os.path.join(out, "cases.json")
         with open(cases_path) as f:
